@@ -543,5 +543,85 @@ func c15(r *mon.Run) {
 			}
 			t.Nontrivial(fmt.Sprint("lp:", i))
 		}}
-	r.Exec(law1, law2, shaped, dead, behind, akPipe, hugew, lpw)
+	// law 1 with a selection on both sides over lists of mixed kinds: the right side's condition (or projection
+	// body) is ill-typed for elements the left side does not let through, so B only ever meets what A returned -
+	// a pipe evaluated in one pass over the original list raises an error neither step raises (or hides one)
+	het := func() *gen.Expr { return gen.Field("xs") }
+	v, tags := func() *gen.Expr { return gen.Field("v") }, func() *gen.Expr { return gen.Field("tags") }
+	c1s := []*gen.Expr{
+		gen.Cmp("==", gen.Func("type", v()), gen.Raw("number")), gen.Cmp("==", gen.Func("type", v()), gen.Raw("string")), tags(), gen.Cmp(">", v(), gen.LitJSON("0")), gen.Cmp("==", gen.Func("type", tags()), gen.Raw("array")),
+		gen.Not(gen.Cmp("==", gen.Func("type", v()), gen.Raw("null"))), gen.And(tags(), gen.Cmp("==", gen.Func("type", v()), gen.Raw("number"))), gen.Cmp("==", gen.Func("type", gen.Current()), gen.Raw("object")),
+	}
+	c2s := []*gen.Expr{
+		gen.Cmp(">", gen.Func("abs", v()), gen.LitJSON("4")), gen.Cmp(">", gen.Func("length", tags()), gen.LitJSON("1")), gen.Func("starts_with", v(), gen.Raw("s")), gen.Cmp(">", gen.Func("length", v()), gen.LitJSON("0")),
+		gen.Func("contains", tags(), gen.Raw("a")), gen.Cmp("==", gen.Func("ceil", v()), v()), gen.Cmp("!=", gen.Func("join", gen.Raw(""), tags()), gen.Raw("")), gen.Func("keys", gen.Current()),
+	}
+	var fA, fB []*gen.Expr
+	for _, c := range c1s {
+		fA = append(fA, gen.Chain(het(), gen.StFilter(c)), gen.Chain(nil, gen.StFilter(c)))
+	}
+	fA = append(fA, gen.Chain(het(), gen.StListStar()), gen.Chain(het(), gen.StSliceS("", "2", "")), gen.Chain(het(), gen.StFilter(c1s[0]), gen.StMultiHash([]gen.Key{{Name: "v"}, {Name: "tags"}}, []*gen.Expr{v(), tags()})),
+		gen.Func("sort_by", gen.Chain(het(), gen.StFilter(c1s[0])), gen.ExpRef(v())), gen.Chain(het(), gen.StFilter(c1s[2]), gen.StField("tags")), gen.Chain(het(), gen.StFlatten()))
+	for _, c := range c2s {
+		fB = append(fB, gen.Chain(nil, gen.StFilter(c)), gen.Chain(nil, gen.StFilter(c), gen.StField("v")), gen.Pipe(gen.Chain(nil, gen.StFilter(c)), gen.Chain(nil, gen.StIndex(0))), gen.Chain(nil, gen.StListStar(), gen.StMultiList(c)),
+			gen.Func("map", gen.ExpRef(c), gen.Current()), gen.Func("length", gen.Chain(nil, gen.StFilter(c))))
+	}
+	mkEl := func(vv interface{}, tg interface{}) interface{} {
+		m := map[string]interface{}{"v": vv}
+		if tg != nil {
+			m["tags"] = tg
+		}
+		return m
+	}
+	hetLists := [][]interface{}{
+		{mkEl(float64(1), []interface{}{"a", "b"}), mkEl("s", nil), mkEl(nil, nil), mkEl([]interface{}{float64(1)}, []interface{}{}), mkEl(float64(7), []interface{}{"a"}), mkEl(float64(-9), "not a list")},
+		{mkEl("str", []interface{}{"x"}), mkEl(float64(5), []interface{}{"a", "b", "c"}), mkEl(float64(2.5), nil)},
+		{mkEl(float64(6), []interface{}{"a", "a"}), mkEl(float64(8), []interface{}{"b", "c"})},
+		{mkEl("s1", nil), mkEl("t2", nil), "bare string", float64(3), nil, []interface{}{mkEl(float64(1), nil)}},
+		{},
+	}
+	var fDocs []interface{}
+	for _, l := range hetLists {
+		fDocs = append(fDocs, map[string]interface{}{"xs": l}, interface{}(l))
+	}
+	ff := mon.Workload{Name: "selections-piped-into-selections-over-mixed-lists", N: len(fA) * len(fB) * len(fDocs), Batch: 1000,
+		Describe: func(i int) string {
+			return gen.Spell(gen.Pipe(fA[i/(len(fB)*len(fDocs))], fB[(i/len(fDocs))%len(fB)])) + " on " + ref.Canon(fDocs[i%len(fDocs)])
+		},
+		Do: func(i int, t *mon.Tally) {
+			A, B, doc := fA[i/(len(fB)*len(fDocs))], fB[(i/len(fDocs))%len(fB)], fDocs[i%len(fDocs)]
+			t.Eval()
+			whole := gen.Pipe(A, B)
+			wexpr := gen.Spell(whole)
+			if i%4 >= 2 {
+				wexpr = gen.SpellTight(whole)
+			}
+			ow := via(i, wexpr, mon.DeepCopy(doc))
+			oa := apiSearch(gen.Spell(A), mon.DeepCopy(doc))
+			ob := oa
+			if !oa.Panicked && oa.Err == nil {
+				ob = apiSearch(gen.Spell(B), oa.V)
+			}
+			if ow.Panicked || ob.Panicked {
+				r.Violate(&mon.Violation{Workload: "selections-piped-into-selections-over-mixed-lists", Index: i, API: "Search", Expr: wexpr, Doc: doc, Expected: "no panic", Observed: ow.String() + " / " + ob.String(), Class: "panic"})
+				return
+			}
+			if !sameOutcome(ow, ob) {
+				res := ref.RefSet(whole, doc, gen.Quirks{})
+				if (len(res.Outcomes) > 1 || res.Skipped != "" || res.DontCare) && agree(res, ow, ob) {
+					return
+				}
+				r.Violate(&mon.Violation{Workload: "selections-piped-into-selections-over-mixed-lists", Index: i, API: "Search", Expr: wexpr, Doc: doc,
+					Expected: "Search(B, Search(A, d)) = " + ob.String() + "   [A = " + gen.Spell(A) + " ; B = " + gen.Spell(B) + " ; Search(A, d) = " + oa.String() + "]",
+					Observed: "Search('A | B', d) = " + ow.String(), Class: "pipe law (selection | selection over a list of mixed kinds)"})
+				return
+			}
+			t.NontrivialDistinct(1)
+			if ob.Err != nil {
+				t.Count("mixed lists: a step errors, the pipe must error")
+			} else {
+				t.Count("mixed lists: both steps succeed, the pipe must give B's value")
+			}
+		}}
+	r.Exec(law1, law2, shaped, dead, behind, akPipe, hugew, lpw, ff)
 }
